@@ -200,7 +200,33 @@ type reference struct {
 	unrec   int
 }
 
-var refCache sync.Map
+// refCache holds the reference run per configuration. Generated checks draw thousands of
+// configurations, so the cache is bounded (a reference costs a few milliseconds to rebuild):
+// when it is full it is emptied.
+var refCache boundedCache
+
+type boundedCache struct {
+	mu sync.Mutex
+	m  map[string]any
+}
+
+const boundedCacheMax = 48
+
+func (c *boundedCache) Load(k string) (any, bool) {
+	c.mu.Lock()
+	defer c.mu.Unlock()
+	v, ok := c.m[k]
+	return v, ok
+}
+
+func (c *boundedCache) Store(k string, v any) {
+	c.mu.Lock()
+	defer c.mu.Unlock()
+	if c.m == nil || len(c.m) >= boundedCacheMax {
+		c.m = map[string]any{}
+	}
+	c.m[k] = v
+}
 
 // sections cuts the calls of one run into stream sections: a section starts at the
 // `SELECT max(ver) … WHERE k = n` query and is keyed by n.
